@@ -253,6 +253,67 @@ theorem no_oob_write (a : Addr) (dest : Buf) (n : Nat) (h : n ≤ dest.length) :
 
 example : toNative (.v6 SA.in6addrAny 0 0 0) [] 0 ≠ .fault := no_oob_write _ _ _ (Nat.le_refl _)
 
+/-! ## lengths beyond the structure
+
+A caller may state any length that its buffer really has (`sizeof (struct sockaddr_storage)`, a page, 2^31, 2^33, …).
+The lengths are `Nat` here: nothing below depends on their size.  These two theorems are what the ops `tonativebig` /
+`fromnativebig` of the line protocol rest on: the driver answers for a length of up to 2^33 from the first 64 bytes. -/
+
+/-- `p_socket_address_to_native`: for every stated length from the native size of the address upwards (within the
+    destination) the answer is the one for exactly the native size — TRUE, the structure written, everything behind it
+    untouched; and cut at any `k` between the two, it is the conversion into the first `k` bytes -/
+theorem to_native_length_monotone (a : Addr) (dest : Buf) (k n : Nat) (hk : nativeSize a ≤ k) (hkn : k ≤ n)
+    (hn : n ≤ dest.length) :
+    toNative a dest n = toNative a dest (nativeSize a) ∧
+    ∃ d, toNative a dest n = .ok (true, d) ∧ d = Spec.encode a ++ dest.drop (nativeSize a) ∧ d.length = dest.length ∧
+      toNative a (dest.take k) k = .ok (true, d.take k) ∧ d.drop k = dest.drop k := by
+  have h0 := toNative_eq_encode a dest n (by omega) hn
+  have h1 := toNative_eq_encode a dest (nativeSize a) (Nat.le_refl _) (by omega)
+  have h2 := toNative_eq_encode a (dest.take k) k hk (by simp; omega)
+  obtain ⟨e1, e2⟩ := encode_append_take_drop (Spec.encode a) dest (nativeSize a) k (encode_length a) hk
+  refine ⟨h0.trans h1.symm, _, h0, rfl, ?_, ?_, e2⟩
+  · simp [encode_length]; omega
+  · rw [h2, e1]
+
+example : ∃ d, toNative (.v4 #v[1, 2, 3, 4] 80) (List.replicate 100 0xA5) 100 = .ok (true, d) ∧
+    toNative (.v4 #v[1, 2, 3, 4] 80) (List.replicate 64 0xA5) 64 = .ok (true, d.take 64) ∧ d.drop 64 = List.replicate 36 0xA5 := by
+  obtain ⟨_, d, h, _, _, h', h''⟩ := to_native_length_monotone (.v4 #v[1, 2, 3, 4] 80) (List.replicate 100 0xA5) 64 100 (by decide) (by decide) (by decide)
+  exact ⟨d, h, by simpa using h', by simpa using h''⟩
+
+/-- `p_socket_address_new_from_native`: for every stated length from the structure size of the family upwards (within
+    the buffer) the answer is the one for exactly that size — 16 for AF_INET, 28 for AF_INET6 —, and from 28 upwards it
+    is the answer for the first `k` bytes alone, `28 ≤ k ≤ len` -/
+theorem from_native_length_monotone (bytes : Buf) (len : Nat) (hl : len ≤ bytes.length) :
+    (bytes.take 2 = [2, 0] → 16 ≤ len → newFromNative bytes len = newFromNative bytes 16) ∧
+    (bytes.take 2 = [10, 0] → 28 ≤ len → newFromNative bytes len = newFromNative bytes 28) ∧
+    (∀ k, 28 ≤ k → k ≤ len → newFromNative bytes len = newFromNative (bytes.take k) k) := by
+  refine ⟨?_, ?_, ?_⟩
+  · intro hf h16
+    rw [newFromNative_eq_decode _ _ hl rfl, newFromNative_eq_decode _ _ (by omega) rfl]
+    rcases bytes with _ | ⟨b0, _ | ⟨b1, r⟩⟩
+    · simp at hf
+    · simp at hf
+    · simp at hf
+      obtain ⟨rfl, rfl⟩ := hf
+      rw [decode_inet_len _ _ h16]
+  · intro hf h28
+    rw [newFromNative_eq_decode _ _ hl rfl, newFromNative_eq_decode _ _ (by omega) rfl]
+    rcases bytes with _ | ⟨b0, _ | ⟨b1, r⟩⟩
+    · simp at hf
+    · simp at hf
+    · simp at hf
+      obtain ⟨rfl, rfl⟩ := hf
+      rw [decode_inet6_len _ _ h28]
+  · intro k hk hkl
+    rw [newFromNative_eq_decode _ _ hl rfl, newFromNative_eq_decode _ _ (by simp; omega) rfl]
+    rw [decode_congr bytes (bytes.take k) len k (by rw [List.take_take]; congr 1; omega) (by omega) (by simp; omega) (by omega) hk]
+
+-- an AF_INET structure in a 100-byte buffer: the same object for the stated lengths 16, 64 and 100
+example : newFromNative ([2, 0, 0, 80, 127, 0, 0, 1] ++ List.replicate 92 0) 100 = .ok (some (.v4 #v[127, 0, 0, 1] 80)) ∧
+    newFromNative ([2, 0, 0, 80, 127, 0, 0, 1] ++ List.replicate 92 0) 16 = .ok (some (.v4 #v[127, 0, 0, 1] 80)) ∧
+    newFromNative ((([2, 0, 0, 80, 127, 0, 0, 1] ++ List.replicate 92 0 : Buf)).take 64) 64 = .ok (some (.v4 #v[127, 0, 0, 1] 80)) := by
+  decide
+
 /-! ## `NULL` pointer arguments -/
 
 /-- every entry point handed a `NULL` pointer answers its failure value (NULL / FALSE / 0 / `P_SOCKET_FAMILY_UNKNOWN`);
